@@ -23,7 +23,7 @@ RULE = "Operation sequences (alphabet of 9 operations) are solver-partitioned up
 ASSUMPTIONS = [
     "finite-state property: no genuinely symbolic dimension; the solver certifies that the partition of the history space is exhaustive",
     "the model demands only what README/docstrings promise: the global check and the context manager protect pickle.load; the safe ML environment protects pickle.load, pickle.loads, _pickle.load, _pickle.loads",
-    "well-nested use: arm / activate / remove happen only while no context is open (re-arming inside an open context is outside the bound); contexts nest up to depth 3",
+    "well-nested use: removing hooks inside an open context is outside the bound; arming or activating inside an open context suspends every claim of the model until the next remove with no context open, where the four bindings must again be the originals; contexts nest up to depth 3",
     "flagged probe = a pickle calling an inert sink global from a non-stdlib, non-allow-listed module (flagged by the static check and blocked by the ML allowlist); a second probe (a bare stdlib global outside the allowlist, LIKELY_SAFE statically) must be refused through every entry point whenever the ML environment is active",
 ]
 
@@ -79,10 +79,13 @@ def _run(ops):
     ok = True
     nontrivial = False
     try:
+        tainted = False     # a protection was armed while a context was open: the model makes no claim until the next remove
         for op in ops:
             name = OPS[op]
-            if name in ("arm", "activate", "activate+adds", "remove") and stack:
-                return True          # outside the bound (see ASSUMPTIONS)
+            if name in ("arm", "activate", "activate+adds") and stack:
+                tainted = True
+            if name == "remove" and stack:
+                return True          # removing hooks inside an open context is outside the bound (see ASSUMPTIONS)
             if name == "arm":
                 fickling.always_check_safety()
                 G = True
@@ -95,6 +98,7 @@ def _run(ops):
             elif name == "remove":
                 hook.remove_hook()
                 G = M = False
+                tainted = False
                 ok = ok and bindings() == ORIG and all(a is b for a, b in zip(bindings(), ORIG))
             elif name == "enter":
                 if len(stack) >= 3:
@@ -117,26 +121,28 @@ def _run(ops):
                     ok = ok and not swallowed
                 now = bindings()
                 # restores precisely what was bound on entry, touches nothing else
-                ok = ok and now[0] is before[0] and all(a is b for a, b in zip(now[1:], before[1:]))
-            elif name == "probe-load":
+                if not tainted:
+                    ok = ok and now[0] is before[0] and all(a is b for a, b in zip(now[1:], before[1:]))
+            elif name == "probe-load" and not tainted:
                 if G or M or stack:
                     ok = ok and _blocked(pickle.load, io.BytesIO(FLAGGED))
                 if M:
                     ok = ok and _blocked(_pickle.load, io.BytesIO(FLAGGED))
                     ok = ok and _blocked(pickle.load, io.BytesIO(ML_ONLY)) and _blocked(_pickle.load, io.BytesIO(ML_ONLY))
-            elif name == "probe-loads":
+            elif name == "probe-loads" and not tainted:
                 if M:
                     ok = ok and _blocked(pickle.loads, FLAGGED) and _blocked(_pickle.loads, FLAGGED)
                     ok = ok and _blocked(pickle.loads, ML_ONLY) and _blocked(_pickle.loads, ML_ONLY)
             # invariant after every step: documented protection is in force
-            if G or M or stack:
-                ok = ok and pickle.load is not ORIG[0]
-            if M:
-                ok = ok and all(a is not b for a, b in zip(bindings(), ORIG))
+            if not tainted:
+                if G or M or stack:
+                    ok = ok and pickle.load is not ORIG[0]
+                if M:
+                    ok = ok and all(a is not b for a, b in zip(bindings(), ORIG))
             if not ok:
                 break
         # with statement form, normal and exceptional exit, from the final state
-        if ok and not stack:
+        if ok and not stack and not tainted:
             before = bindings()
             try:
                 with fickling.check_safety():
@@ -151,7 +157,8 @@ def _run(ops):
         while stack:
             cm, _ = stack.pop()
             cm.__exit__(None, None, None)
-        hook.remove_hook()
+        # harness-owned reset (not via the code under test): nothing may leak into the next explored history
+        pickle.load, pickle.loads, _pickle.load, _pickle.loads = ORIG
     rt.reach(nontrivial or G or M)
     return ok
 
@@ -164,7 +171,7 @@ def lemmas(tier):
         if OPS[first] in ("exit", "exit-exc"):
             continue      # a history cannot start by leaving a context
         fn = make_history(first)
-        L.append(Lemma(fn.__name__, fn, timeout=300 if q else 3000, dry=[{"h": [4, 7, 5]}, {"h": [4, 4, 6]}, {"h": [8, 3, 7]}],
+        L.append(Lemma(fn.__name__, fn, timeout=300 if q else 3000, dry=[{"h": [4, 7, 5]}, {"h": [4, 4, 6]}, {"h": [8, 3, 7]}, {"h": [1, 5, 3]}, {"h": [4, 2, 6]}],
                        doc={"F": ["histories starting with %r, length <= %d over %s" % (OPS[first], HMAX[0], OPS)],
                             "bound": "length <= %d, context depth <= 3, then one with-statement round trip (exit by exception) from the final state" % HMAX[0]}))
     return L
